@@ -1046,15 +1046,26 @@ def rule_greedy_scan_start(ctx):
             if s1[0] == "field" and e1[0] == "field" and "prefilter_ascii" in txt_s and s1[2] == "0" and e1[2] == "1" and repr(s1[1]) == repr(e1[1]):
                 ctx.ok(site(f2, bi), "(start, greedy_end) of one prefilter_ascii result (only reached with an ASCII haystack)")
                 continue
-            if e1[0] == "field" and "prefilter::<impl Matcher>::prefilter_" in txt_e and ((("prefilter_non_ascii" in txt_e) and e1[2] == "1") or (("prefilter_ascii" in txt_e) and e1[2] == "2")):
+            pcs_ = [x for x in walk(e1) if x[0] == "call" and "prefilter::<impl Matcher>::prefilter_" in str(x[1])]
+            full_ = bool(pcs_) and strip_casts(pcs_[0][2][-1])[0] == "const" and strip_casts(pcs_[0][2][-1])[1] in (0, False)
+            if full_ and e1[0] == "field" and ((("prefilter_non_ascii" in txt_e) and e1[2] == "1") or (("prefilter_ascii" in txt_e) and e1[2] == "2")):
                 ctx.violation("%s|greedy-scan-start|%s" % (f2.path, callee(t).rsplit("::", 1)[1]), site(f2, bi),
                               "code-point call passes the END of the prefilter window as `end` (%s): the forward scan for needle[1..] starts behind the last occurrence of the last needle "
                               "character and answers None for a haystack that contains the needle" % txt_e[:80])
                 continue
-            ctx.fail_closed("%s: cannot relate the `end` argument of the greedy matcher (%s) to `start` (%s)" % (f2.path, txt_e[:70], txt_s[:70]))
+            # only_greedy = true: the prefilter returns the pair (start, start + 1) by construction
+            if e1[0] == "field" and s1[0] == "field" and "prefilter_non_ascii" in txt_e and e1[2] == "1" and s1[2] == "0" and repr(strip_casts(e1[1])) == repr(strip_casts(s1[1])):
+                pc_ = [x for x in walk(e1[1]) if x[0] == "call" and "prefilter_non_ascii" in str(x[1])]
+                og_ = strip_casts(pc_[0][2][-1]) if pc_ else ("?",)
+                if og_[0] == "const" and og_[1] in (1, True):
+                    ctx.ok(site(f2, bi), "(start, end) of one prefilter_non_ascii(.., only_greedy = true) result, which is (start, start + 1)")
+                    continue
+            # anything else (an `end` found by a walk of the caller's own, say) is not judged here: the rule reports the
+            # recognised breaches of the contract only
+            ctx.note("%s: `end` of the greedy matcher (%s) not related to `start` by this rule" % (f2.path, txt_e[:70]))
     for f2, bi, t in calls_to(facts, M, lambda t_: callee(t_) == GREEDY):
         judge(f2, bi, t, names["start"] - 1, names["end"] - 1, 0)
-    ctx.floor("code-point call sites of fuzzy_match_greedy_ judged", n[0], 1)
+    ctx.floor("code-point call sites of fuzzy_match_greedy_ looked at", n[0], 1)
 
 
 def rule_window_complete(ctx):
